@@ -5,6 +5,7 @@ import UscxmlVerif.Model.Tables
 import UscxmlVerif.Model.Validate
 import UscxmlVerif.Properties.C05
 import UscxmlVerif.Proofs.Interval
+import UscxmlVerif.Proofs.ParentsFast
 namespace Driver
 open UscxmlVerif
 
@@ -38,7 +39,8 @@ def tables (line : String) : String :=
   | _ => "bad-op"
 
 /-- request: a chart s-expression (as for `tables`); response: whether the flat chart meets the hypotheses of the C05
-theorems (`Coherent`) and how many of its transitions are plain (`plainTrans`) -/
+theorems (`Coherent`), how many of its transitions are plain (`plainTrans`), whether it has history states and whether it
+meets the hypotheses of the parent-closure theorem of C02 (`EntryOk`, `SelPlain`, `SelPlainF`) -/
 def coherent (line : String) : String :=
   match line.splitOn "\t" with
   | _ :: sx :: _ =>
@@ -47,7 +49,7 @@ def coherent (line : String) : String :=
       let c := flatten d late
       let n := c.trans.size
       let k := ((List.range n).filter (fun i => Properties.C05.plainTrans c (Model.Tables.tr c i))).length
-      s!"wfdoc={if Proofs.Flatten.WFDoc d && d.kind == .scxml then 1 else 0} coh={if Proofs.Struct.Coherent c then 1 else 0} ival={if Proofs.Interval.IntervalOK c then 1 else 0} plain={k}/{n}"
+      s!"wfdoc={if Proofs.Flatten.WFDoc d && d.kind == .scxml then 1 else 0} coh={if Proofs.Struct.Coherent c then 1 else 0} ival={if Proofs.Interval.IntervalOK c then 1 else 0} plain={k}/{n} hist={if (List.range c.states.size).any (fun i => (Model.Large.st c i).typ.isHistory) then 1 else 0} entry={if Proofs.EntryClosed.EntryOk c && Proofs.Parents.SelPlain c && Proofs.ParentsFast.SelPlainF c then 1 else 0}"
     | none => "bad-chart"
   | _ => "bad-op"
 
